@@ -51,6 +51,26 @@ func run(r *core.Run) {
 	}
 
 	specs := compositions(r.Seed, r.Thorough())
+	if only == "" || only == "compose" {
+		// two live handles (original + clone) on every composition of nesting <= 1
+		// (thorough: <= 2), before the single handle search so that a deadline cuts that one
+		d2 := core.Pick(r, 3, 4)
+		n := 0
+		for i, s := range specs {
+			if specDepth(s) > core.Pick(r, 1, 2) || !r.Mine(int64(i)) {
+				continue
+			}
+			if r.Expired() {
+				r.NotExhaustive("deadline: two-handle enumeration not finished")
+				break
+			}
+			r.Case(int64(i), "two handles: "+s.String())
+			exploreTwoHandles(r, s, d2, 20000)
+			n++
+		}
+		r.Logf("shard %d: two-handle search on %d compositions", r.ShardIdx, n)
+		r.Section("two-handles")
+	}
 	depth := core.Pick(r, 3, 4)
 	maxStates := core.Pick(r, 30000, 60000)
 	r.Extra("compositions_total", len(specs))
@@ -82,6 +102,21 @@ func replay(r *core.Run, raw json.RawMessage) bool {
 		return false
 	}
 	switch c.Kind {
+	case "two":
+		var hops []HOp
+		b, _ := json.Marshal(c.Args["hops"])
+		_ = json.Unmarshal(b, &hops)
+		_, f, pv := runTwoHandles(*c.Spec, hops, true)
+		fmt.Printf("  reader h0: %s (h1 = its clone)\n  history: %v\n", c.Spec, hops)
+		if pv != nil {
+			fmt.Printf("  observed: panic %v\n", pv)
+			return true
+		}
+		if f != nil {
+			fmt.Printf("  observed vs reference: %s\n", f.msg)
+			return true
+		}
+		return false
 	case "compose":
 		_, f, pv := runHistory(*c.Spec, c.Ops, true)
 		fmt.Printf("  reader:  %s\n  history: %v\n", c.Spec, c.Ops)
